@@ -24,7 +24,7 @@ class Number(Token):
     def addCharToToken(self, char: str) -> Token.isToken:
         self.index += 1
 
-        if char.isnumeric():
+        if char.isdecimal():
             self.closed = True
             return Token.isToken.TRUE
 
